@@ -138,6 +138,8 @@ def main(tier):
     # the diagonal blocks that define the CPR pressure weighting are gathered into per-thread scratch that must be rebuilt for every cell (shared with C10)
     import c10
     c10.rule_E(ck, units, only=lambda f: bool(f.cls) and 'cpr' in f.cls, floor=1)
+    import c17
+    c17.rule_A(ck, units)      # constructor and partial_update sort their private copy of the matrix before the block scans (shared with C17)
     c10.rule_F(ck, units, floor=1, only=lambda f: bool(f.cls) and 'cpr' in f.cls)    # partial updates do not touch what they did not build (shared with C10)
     ck.assumptions += ['that type-1 / type-2 Schur pressure correction invert the saddle-point / block-triangular matrix with exact inner solves, that the CPR pressure matrix is the documented weighting, '
                        'that partial updates leave the action unchanged and that the deflation projection is orthogonal are statements about values and are NOT decided',
